@@ -399,7 +399,7 @@ func runCheck(o checkOpts) *CheckResult {
 					idx = append(idx, i)
 				}
 			}
-			e.discharge(again)
+			e.dischargeLight(again)
 			for k, ob := range again {
 				if ob.ok() {
 					orig := r.Obls[idx[k]]
